@@ -66,6 +66,20 @@ class Evaluator:
             return self.atoms['.' + e.func.attr + '()']
         if isinstance(e, ast.Call) and isinstance(e.func, ast.Name) and (e.func.id + '()') in self.atoms:
             return self.atoms[e.func.id + '()']
+        # a scenario that fixes what a look-up returns (`.get()` -> an object / None) fixes the other spellings of the same
+        # look-up too: `k in d` / `k not in d` (present iff the look-up is not None) and `d[k]` (the object), for a container
+        # that is an attribute or a name (the scenarios of the rules only ever speak of one look-up per routine)
+        if isinstance(e, ast.Compare) and len(e.ops) == 1 and isinstance(e.ops[0], (ast.In, ast.NotIn)) and isinstance(e.comparators[0], (ast.Attribute, ast.Name)):
+            cont = norm(e.comparators[0])
+            for k_ in (f'{cont}.get()', f'{cont}[{norm(e.left)}]', f'{cont}.get({norm(e.left)})', '.get()'):
+                if k_ in self.atoms and not (isinstance(e.comparators[0], ast.Name) and e.comparators[0].id in self.locals):
+                    present = self.atoms[k_] is not None
+                    return present if isinstance(e.ops[0], ast.In) else not present
+        if isinstance(e, ast.Subscript) and isinstance(getattr(e, 'ctx', None), ast.Load) and isinstance(e.value, (ast.Attribute,)) and not isinstance(e.slice, ast.Slice):
+            cont = norm(e.value)
+            for k_ in (f'{cont}.get()',):
+                if k_ in self.atoms and self.atoms[k_] is not None:
+                    return self.atoms[k_]
         if isinstance(e, ast.Constant):
             return e.value
         if isinstance(e, ast.Name):
